@@ -22,7 +22,7 @@ def patterns(sig, r, beh):
 
 
 def check(tier, replay):
-    rep = vlib.Report("C19", tier, "model_checking")
+    rep = vlib.Report("C19", tier, "exploration")
     rep.work = vlib.Work("C19")
     tools = rep.work.sub("tools")
     p = subprocess.run([os.path.join(vlib.VERIF, "bin", "build_tools.sh"), tools], capture_output=True, text=True,
